@@ -3,6 +3,7 @@
 package main
 
 import (
+	"os"
 	"context"
 	"encoding/json"
 	"fmt"
@@ -223,6 +224,7 @@ func runEvCase(c evCase) *evRun {
 		used bool
 	}
 	var owners []owner
+	ikLog := map[string]int64{} // idempotency key -> log id of the committed write that first carried it
 	seenLog := map[int64]bool{} // log ids returned by earlier successful writes: a later result with the same id is a replay
 	for si, s := range c.Steps {
 		tr.CurOp = si
@@ -260,6 +262,9 @@ func runEvCase(c evCase) *evRun {
 		cancel()
 		run.StmtCount = append(run.StmtCount, tr.Stmts)
 		faultHit, faultInTx := tr.FaultHit, tr.FaultInTx
+		if os.Getenv("VH_DEBUG") != "" {
+			fmt.Fprintf(os.Stderr, "step %d fault=%s hit=%v intx=%v sql=%q stmts=%d\n", si, s.Fault.sx(), faultHit, faultInTx, tr.FaultSQL, tr.Stmts)
+		}
 		cancelHit, cancelOnLog := tr.CancelHit, tr.CancelOnLog
 		cancelAssigned := false
 		_ = o0(s.Ops)
@@ -291,6 +296,14 @@ func runEvCase(c evCase) *evRun {
 			prelude = "fail"
 			if s.Fault.Kind == "cancel_stmt" && cancelHit {
 				prelude = "cancel"
+			}
+		}
+		// a statement outside a transaction is not always BEFORE it: after a failed write under an idempotency key the log
+		// processor looks the key up once more (errorOrIKOutcome); a fault there follows a begin ... rollback ("fail", not "early")
+		stepBegan := false
+		for _, it := range tr.Items[mark:] {
+			if it.Kind == "begin" {
+				stepBegan = true
 			}
 		}
 		// abstract description of the step
@@ -334,9 +347,14 @@ func runEvCase(c evCase) *evRun {
 				outs[i] = "ok" // never executed: irrelevant to the model
 			case txDone && cancelHit:
 				outs[i] = "ok" // the write itself succeeded; the context was cancelled before its COMMIT (sql.ErrTxDone)
+			case injCommit && s.Ops[i].IK != "" && ikLog[s.Ops[i].IK] > 0:
+				// a replay of a committed request whose transaction (the facade's, on a ledger it still holds as initializing)
+				// failed to COMMIT: the answer is the error, but what ran was the replay -- nothing was written
+				outs[i] = L("hit", fmt.Sprint(ikLog[s.Ops[i].IK]))
+				isHit = true
 			case injCommit:
 				outs[i] = "ok" // the write itself succeeded; its COMMIT failed
-			case injStmt && faultHit && !faultInTx:
+			case injStmt && faultHit && !faultInTx && !stepBegan:
 				outs[i] = "early"
 			default:
 				outs[i] = "fail"
@@ -370,6 +388,9 @@ func runEvCase(c evCase) *evRun {
 			}
 			if r.Class == "none" && !o.Dry {
 				seenLog[r.LogID] = true
+			}
+			if r.Class == "none" && !o.Dry && !rolledBack && o.IK != "" && ikLog[o.IK] == 0 {
+				ikLog[o.IK] = r.LogID
 			}
 		}
 		run.HitOp = append(run.HitOp, hit)
